@@ -311,6 +311,17 @@ impl ZmtpEngine {
         });
         // Fall through to the v3 greeting decode below.
       } else if peer_revision == V2_REVISION {
+        // ZMTP/2.0 has no security handshake: a socket that requires a mechanism
+        // must never downgrade, or the peer bypasses authentication entirely.
+        if self.config.security_enabled {
+          self.fail(
+            out,
+            ZmqError::SecurityError(
+              "ZMTP/2.0 peer cannot satisfy the configured security mechanism".into(),
+            ),
+          );
+          return;
+        }
         if !self.config.allow_zmtp2 {
           self.fail(
             out,
